@@ -282,15 +282,81 @@ Theorem C20_no_key_clear :
 Proof. exact originate_no_key. Qed.
 Print Assumptions C20_no_key_clear.
 
+(* EVENT dispatch over the WHOLE handler list of the subscription: every active handler, in order, gets exactly the
+   published (args, kwargs) *)
+Theorem C20_roundtrip_publish_event_all_handlers :
+  forall (V P C nonce : Type) (seal : secret -> nonce -> P -> C) (open : secret -> C -> option P)
+    (dumps : envelope V -> option P) (loads : P -> option (envelope V)),
+  aead_ok seal open ->
+  json_ok dumps loads ->
+  forall (ra rb : keyring) (topic : string) (a : list V) (k : kw V) (n : nonce) (s : secret) 
+    (b : body V C) (msg_topic : option string) (hs : list ehandler),
+  get_box ra true topic = Some s ->
+  get_box rb false topic = Some s ->
+  originate V P C nonce seal dumps (Some ra) topic a k n = Sent b ->
+  on_topic msg_topic topic hs ->
+  dispatch_event V P C open loads (Some rb) msg_topic b hs =
+  map (fun h : ehandler => (h_id h, a, k)) (filter h_active hs).
+Proof. exact dispatch_roundtrip. Qed.
+Print Assumptions C20_roundtrip_publish_event_all_handlers.
+
+(* swapped envelope, all handlers: a ciphertext sealed for [inner] arriving for topic [uri] invokes NO handler of the
+   subscription — not the first and not the second or third either *)
+Theorem C20_uri_binding_event_all_handlers :
+  forall (V P C nonce : Type) (seal : secret -> nonce -> P -> C) (open : secret -> C -> option P)
+    (dumps : envelope V -> option P) (loads : P -> option (envelope V)),
+  aead_ok seal open ->
+  json_ok dumps loads ->
+  forall (r : keyring) (uri inner : string) (s : secret) (n : nonce) (p : P) (a : option (list V))
+    (k : option (kw V)) (msg_topic : option string) (hs : list ehandler),
+  inner <> uri ->
+  dumps (Some inner, a, k) = Some p ->
+  get_box r false uri = Some s ->
+  on_topic msg_topic uri hs ->
+  dispatch_event V P C open loads (Some r) msg_topic
+    (Encoded {| e_payload := seal s n p; e_algo := "cryptobox"; e_serializer := Some "json"; e_key := None |})
+    hs = [].
+Proof. exact dispatch_uri_binding. Qed.
+Print Assumptions C20_uri_binding_event_all_handlers.
+
+(* tampered / wrong-key EVENT: NO handler of the subscription is invoked *)
+Theorem C20_tamper_never_delivered_event_all_handlers :
+  forall (V P C : Type) (open : secret -> C -> option P) (loads : P -> option (envelope V)) 
+    (r : keyring) (uri : string) (e : encoded C) (msg_topic : option string) (hs : list ehandler),
+  (forall s : secret, get_box r false uri = Some s -> open s (e_payload e) = None) ->
+  on_topic msg_topic uri hs -> dispatch_event V P C open loads (Some r) msg_topic (Encoded e) hs = [].
+Proof. exact dispatch_unopenable. Qed.
+Print Assumptions C20_tamper_never_delivered_event_all_handlers.
+
+(* whatever ANY handler receives from an encrypted EVENT was sealed under the receiver's secret for that handler's topic *)
+Theorem C20_delivered_authentic_event_all_handlers :
+  forall (V P C nonce : Type) (seal : secret -> nonce -> P -> C) (open : secret -> C -> option P)
+    (loads : P -> option (envelope V)),
+  aead_ok seal open ->
+  forall (codec : option keyring) (msg_topic : option string) (e : encoded C) (hs : list ehandler) 
+    (i : N) (a : list V) (k : kw V),
+  In (i, a, k) (dispatch_event V P C open loads codec msg_topic (Encoded e) hs) ->
+  exists
+    (h : ehandler) (r : keyring) (s : secret) (n : nonce) (p : P) (a' : option (list V)) 
+  (k' : option (kw V)),
+    In h hs /\
+    h_id h = i /\
+    codec = Some r /\
+    get_box r false (event_topic msg_topic h) = Some s /\
+    e_payload e = seal s n p /\
+    loads p = Some (Some (event_topic msg_topic h), a', k') /\ a = or_nil a' /\ k = or_nil k'.
+Proof. exact dispatch_authentic. Qed.
+Print Assumptions C20_delivered_authentic_event_all_handlers.
+
 (* ERROR direction with the caller's registry of exception classes: a ciphertext the caller cannot open yields the explicit
    decrypt error for EVERY registry and EVERY constructor oracle — a class registered for the error URI is never built *)
 Theorem C20_tamper_never_delivered_error_registered :
   forall (V P C : Type) (open : secret -> C -> option P) (loads : P -> option (envelope V)) 
-    (MV : Type) (enc_note : string -> V) (construct : cls -> shape -> list V -> kw V -> ctor_result V MV)
+    (MV : Type) (enc_note : string -> V) (construct : cls -> shape -> list V -> kw V -> ctor_result V MV) (caller_hook : hook)
     (reg : registry) (r : keyring) (error : string) (e : encoded C) (rtype req : N) 
     (meta : string -> option MV),
   (forall s : secret, get_box r true error = Some s -> open s (e_payload e) = None) ->
-  exception_from_message_codec V P C open loads MV enc_note construct reg (Some r) rtype req error 
+  exception_from_message_codec V P C open loads MV enc_note construct caller_hook reg (Some r) rtype req error 
     (Encoded e) meta = (Ok (enc_exn V MV enc_note ENC_DECRYPT_ERROR), false).
 Proof. exact error_unopenable_registered. Qed.
 Print Assumptions C20_tamper_never_delivered_error_registered.
@@ -300,11 +366,11 @@ Theorem C20_wrong_key_error_registered :
   forall (V P C nonce : Type) (seal : secret -> nonce -> P -> C) (open : secret -> C -> option P)
     (loads : P -> option (envelope V)),
   aead_ok seal open ->
-  forall (MV : Type) (enc_note : string -> V) (construct : cls -> shape -> list V -> kw V -> ctor_result V MV)
+  forall (MV : Type) (enc_note : string -> V) (construct : cls -> shape -> list V -> kw V -> ctor_result V MV) (caller_hook : hook)
     (reg : registry) (r : keyring) (error : string) (s : secret) (n : nonce) (p : P) 
     (rtype req : N) (meta : string -> option MV),
   (forall s' : secret, get_box r true error = Some s' -> s <> s') ->
-  exception_from_message_codec V P C open loads MV enc_note construct reg (Some r) rtype req error
+  exception_from_message_codec V P C open loads MV enc_note construct caller_hook reg (Some r) rtype req error
     (Encoded {| e_payload := seal s n p; e_algo := "cryptobox"; e_serializer := Some "json"; e_key := None |})
     meta = (Ok (enc_exn V MV enc_note ENC_DECRYPT_ERROR), false).
 Proof. exact error_wrong_key_registered. Qed.
@@ -317,13 +383,13 @@ Theorem C20_uri_binding_error_registered :
   aead_ok seal open ->
   json_ok dumps loads ->
   (recv V -> V) ->
-  forall (MV : Type) (enc_note : string -> V) (construct : cls -> shape -> list V -> kw V -> ctor_result V MV)
+  forall (MV : Type) (enc_note : string -> V) (construct : cls -> shape -> list V -> kw V -> ctor_result V MV) (caller_hook : hook)
     (reg : registry) (r : keyring) (uri inner : string) (s : secret) (n : nonce) (p : P) 
     (a : option (list V)) (k : option (kw V)) (rtype req : N) (meta : string -> option MV),
   inner <> uri ->
   dumps (Some inner, a, k) = Some p ->
   get_box r true uri = Some s ->
-  exception_from_message_codec V P C open loads MV enc_note construct reg (Some r) rtype req uri
+  exception_from_message_codec V P C open loads MV enc_note construct caller_hook reg (Some r) rtype req uri
     (Encoded {| e_payload := seal s n p; e_algo := "cryptobox"; e_serializer := Some "json"; e_key := None |})
     meta = (Ok (enc_exn V MV enc_note ENC_TRUSTED_URI_MISMATCH), false).
 Proof. exact error_uri_binding_registered. Qed.
@@ -337,21 +403,21 @@ Theorem C20_delivered_authentic_error_registered :
   (sk -> pk -> secret) ->
   forall (seal : secret -> nonce -> P -> C) (open : secret -> C -> option P) (loads : P -> option (envelope V)),
   aead_ok seal open ->
-  forall (MV : Type) (enc_note : string -> V) (construct : cls -> shape -> list V -> kw V -> ctor_result V MV)
+  forall (MV : Type) (enc_note : string -> V) (construct : cls -> shape -> list V -> kw V -> ctor_result V MV) (caller_hook : hook)
     (reg : registry) (codec : option keyring) (error : string) (e : encoded C) (rtype req : N)
     (meta : string -> option MV),
   (exists u : string,
      (u = ENC_NO_PAYLOAD_CODEC \/ u = ENC_DECRYPT_ERROR \/ u = ENC_TRUSTED_URI_MISMATCH) /\
-     exception_from_message_codec V P C open loads MV enc_note construct reg codec rtype req error 
+     exception_from_message_codec V P C open loads MV enc_note construct caller_hook reg codec rtype req error 
        (Encoded e) meta = (Ok (enc_exn V MV enc_note u), false)) \/
   (exists (r : keyring) (s : secret) (n : nonce) (p : P) (a : option (list V)) (k : option (kw V)),
      codec = Some r /\
      get_box r true error = Some s /\
      e_payload e = seal s n p /\
      loads p = Some (Some error, a, k) /\
-     exception_from_message_codec V P C open loads MV enc_note construct reg codec rtype req error 
+     exception_from_message_codec V P C open loads MV enc_note construct caller_hook reg codec rtype req error 
        (Encoded e) meta =
-     exception_from_message construct reg
+     exception_from_message construct caller_hook reg
        {| m_rtype := rtype; m_request := req; m_error := error; m_args := a; m_kwargs := k; m_meta := meta |}).
 Proof. exact error_authentic_registered. Qed.
 Print Assumptions C20_delivered_authentic_error_registered.
@@ -362,14 +428,14 @@ Theorem C20_roundtrip_error_registered :
     (dumps : envelope V -> option P) (loads : P -> option (envelope V)),
   aead_ok seal open ->
   json_ok dumps loads ->
-  forall (MV : Type) (enc_note : string -> V) (construct : cls -> shape -> list V -> kw V -> ctor_result V MV)
+  forall (MV : Type) (enc_note : string -> V) (construct : cls -> shape -> list V -> kw V -> ctor_result V MV) (caller_hook : hook)
     (reg : registry) (ra rb : keyring) (error : string) (a : option (list V)) (k : option (kw V)) 
     (n : nonce) (s : secret) (b : body V C) (rtype req : N) (meta : string -> option MV),
   get_box ra true error = Some s ->
   get_box rb false error = Some s ->
   error_body V P C nonce seal dumps (Some rb) error a k n = Sent b ->
-  exception_from_message_codec V P C open loads MV enc_note construct reg (Some ra) rtype req error b meta =
-  exception_from_message construct reg
+  exception_from_message_codec V P C open loads MV enc_note construct caller_hook reg (Some ra) rtype req error b meta =
+  exception_from_message construct caller_hook reg
     {| m_rtype := rtype; m_request := req; m_error := error; m_args := a; m_kwargs := k; m_meta := meta |}.
 Proof. exact roundtrip_error_registered. Qed.
 Print Assumptions C20_roundtrip_error_registered.
@@ -426,10 +492,21 @@ Example C20_witness_error_registered :
   let reg := fst (define (fun _ => true) init_registry (DefExplicit 10 "com.myapp.error1")) in
   let reg2 := fst (define (fun _ => true) reg (DefExplicit 10 "com.myapp.error2")) in
   let construct := fun (c : cls) (_ : shape) (a : list N) (k : kw N) => CtorOk (MV:=N) (mkCexn c None a (Some k) true [] []) in
-  let efm := exception_from_message_codec N (envelope N) toyC toy_open (fun p => Some p) N (fun _ => 0) construct in
+  let efm := exception_from_message_codec N (envelope N) toyC toy_open (fun p => Some p) N (fun _ => 0) construct HookRaises in
   let sealed := Encoded (mkEnc (Sealed 22 7 (Some "com.myapp.error1", Some [1; 2], Some [("k", 3)])) "cryptobox" (Some "json") None) in
   fst (efm reg (Some ex_ring) 48 1 "com.myapp.error1" sealed no_meta) = Ok (mkCexn 10 None [1; 2] (Some [("k", 3)]) true [] []) /\
   fst (efm reg (Some ex_ring) 48 1 "com.myapp.error1" (Encoded (mkEnc Garbage "cryptobox" (Some "json") None)) no_meta)
     = Ok (enc_exn N N (fun _ => 0) ENC_DECRYPT_ERROR) /\
   fst (efm reg2 (Some ex_ring) 48 1 "com.myapp.error2" sealed no_meta) = Ok (enc_exn N N (fun _ => 0) ENC_TRUSTED_URI_MISMATCH).
+Proof. vm_compute. repeat split; reflexivity. Qed.
+
+(* three handlers on one subscription (the second inactive): all active ones invoked in order; with a swapped
+   envelope or garbage none of them *)
+Example C20_witness_event_handlers :
+  let hs := [mkHandler 1 true "com.myapp.topic"; mkHandler 2 false "com.myapp.topic"; mkHandler 3 true "com.myapp.topic"] in
+  let disp := dispatch_event N (envelope N) toyC toy_open (fun p => Some p) (Some ex_ring) None in
+  let sealed t := Encoded (mkEnc (Sealed 22 7 (Some t, Some [1; 2], Some [("k", 3)])) "cryptobox" (Some "json") None) in
+  disp (sealed "com.myapp.topic") hs = [(1, [1; 2], [("k", 3)]); (3, [1; 2], [("k", 3)])] /\
+  disp (sealed "com.myapp.other") hs = [] /\
+  disp (Encoded (mkEnc Garbage "cryptobox" (Some "json") None)) hs = [].
 Proof. vm_compute. repeat split; reflexivity. Qed.
